@@ -98,12 +98,16 @@ let rpd toks =
       let v = rp_variant_of var in
       let w = rp_cfg_window (zi wcfg) in
       let b12 = b12 <> "0" in
-      let s = ref rp_init in
+      (* two recipient contexts: a leading '2' addresses the second one *)
+      let s = ref rp_init and s2 = ref rp_init in
+      let st x = Printf.sprintf "%s,%s,%s" (hex_of_z x.rp_last) (hex_of_z x.rp_win) (b01 x.rp_initial) in
       let outs = List.map (fun tok ->
-          let r, s1 = rp_recv v w b12 !s (rp_msg_of tok) in
-          s := s1;
-          Printf.sprintf "%s,%s,%s,%s" (verdict_letter r) (hex_of_z s1.rp_last)
-            (hex_of_z s1.rp_win) (b01 s1.rp_initial)) msgs in
+          let second = tok.[0] = '2' in
+          let tok' = if second then String.sub tok 1 (String.length tok - 1) else tok in
+          let cur = if second then s2 else s in
+          let r, s1 = rp_recv v w b12 !cur (rp_msg_of tok') in
+          cur := s1;
+          Printf.sprintf "%s,%s/%s" (verdict_letter r) (st !s) (st !s2)) msgs in
       if outs = [] then "-" else String.concat " " outs
   | _ -> failwith "rpd args"
 
@@ -113,10 +117,13 @@ let rps toks =
   | wcfg :: b12 :: msgs ->
       let w = rp_cfg_window (zi wcfg) in
       let b12 = b12 <> "0" in
-      let a = ref rp_abs_init in
+      let a = ref rp_abs_init and a2 = ref rp_abs_init in
       let outs = List.map (fun tok ->
-          let r, a1 = rp_abs_recv w b12 !a (rp_msg_of tok) in
-          a := a1; verdict_letter r) msgs in
+          let second = tok.[0] = '2' in
+          let tok' = if second then String.sub tok 1 (String.length tok - 1) else tok in
+          let cur = if second then a2 else a in
+          let r, a1 = rp_abs_recv w b12 !cur (rp_msg_of tok') in
+          cur := a1; verdict_letter r) msgs in
       if outs = [] then "-" else String.concat " " outs
   | _ -> failwith "rps args"
 
